@@ -1,28 +1,29 @@
-(* Proofs about rename: model/SymGraph.v (rename as edge relabelling) and model/Rename.v (the handler). *)
+(* Proofs about rename: the relabelling that the edited text amounts to (spec/RenameSpec.v) and the handler
+   (model/Rename.v). *)
 From Coq Require Import List NArith Arith Bool Lia.
 Import ListNotations.
 From Mos Require Import model.SymGraph model.Analysis model.Rename spec.NavSpec spec.RenameSpec
   proofs.SymGraphProofs proofs.NavProofs proofs.GreedyProofs.
 
-(* ---------- rename is a relabelling ---------- *)
-Lemma rename_relabelled : forall g p c new, relabelled g (rename g p c new) p c new.
+(* ---------- relabel ---------- *)
+Lemma relabel_relabelled : forall g c old new, relabelled g (relabel g c old new) c old new.
 Proof.
-  intros g p c new. unfold relabelled, rename. induction g as [|e g IH]; cbn; constructor; [|assumption].
-  destruct (Nat.eqb (e_src e) p && Nat.eqb (e_dst e) c) eqn:E; cbn; [|auto].
-  apply andb_true_iff in E as [E1 E2]. apply Nat.eqb_eq in E1, E2. auto.
+  intros g c old new. unfold relabelled, relabel. induction g as [|e g IH]; cbn; constructor; [|assumption].
+  destruct (Nat.eqb (e_dst e) c && ident_eqb (e_lbl e) old) eqn:E; cbn; [|auto].
+  apply andb_true_iff in E as [E1 _]. apply Nat.eqb_eq in E1. auto.
 Qed.
 
-Lemma rename_in : forall g p c new e',
-  In e' (rename g p c new) <->
-  exists e, In e g /\ e' = if Nat.eqb (e_src e) p && Nat.eqb (e_dst e) c then mkEdge p new c else e.
-Proof. intros. unfold rename. rewrite in_map_iff. split; intros [e [H1 H2]]; exists e; auto. Qed.
+Lemma relabel_in : forall g c old new e',
+  In e' (relabel g c old new) <->
+  exists e, In e g /\ e' = if Nat.eqb (e_dst e) c && ident_eqb (e_lbl e) old then mkEdge (e_src e) new c else e.
+Proof. intros. unfold relabel. rewrite in_map_iff. split; intros [e [H1 H2]]; exists e; auto. Qed.
 
-Lemma parent_rename : forall g p c new n, parent (rename g p c new) n = parent g n.
+Lemma parent_relabel : forall g c old new n, parent (relabel g c old new) n = parent g n.
 Proof.
-  intros g p c new n. unfold parent, rename. induction g as [|e g IH]; [reflexivity|]. cbn.
-  destruct (Nat.eqb (e_src e) p && Nat.eqb (e_dst e) c) eqn:E; cbn.
-  - apply andb_true_iff in E as [E1 E2]. apply Nat.eqb_eq in E1, E2. rewrite E2.
-    destruct (Nat.eqb c n); cbn; [congruence|]. apply IH.
+  intros g c old new n. unfold parent, relabel. induction g as [|e g IH]; [reflexivity|]. cbn.
+  destruct (Nat.eqb (e_dst e) c && ident_eqb (e_lbl e) old) eqn:E; cbn.
+  - apply andb_true_iff in E as [E1 _]. apply Nat.eqb_eq in E1. rewrite E1.
+    destruct (Nat.eqb c n); cbn; [reflexivity|]. apply IH.
   - destruct (Nat.eqb (e_dst e) n); cbn; [reflexivity|]. apply IH.
 Qed.
 
@@ -42,11 +43,11 @@ Proof.
   - exfalso. pose proof (find_none _ _ Fi _ I) as H. cbn in H. rewrite Nat.eqb_refl, ident_eqb_refl in H. discriminate.
 Qed.
 
-Lemma rename_functional : forall g p c new, functional g -> fresh g new -> functional (rename g p c new).
+Lemma relabel_functional : forall g c old new, functional g -> fresh g new -> functional (relabel g c old new).
 Proof.
-  intros g p c new F [Fr _] e1 e2 I1 I2 Hs Hl.
-  apply rename_in in I1 as [a [Ia Ea]]. apply rename_in in I2 as [b [Ib Eb]].
-  destruct (Nat.eqb (e_src a) p && Nat.eqb (e_dst a) c) eqn:Ca; destruct (Nat.eqb (e_src b) p && Nat.eqb (e_dst b) c) eqn:Cb; subst; cbn in *.
+  intros g c old new F [Fr _] e1 e2 I1 I2 Hs Hl.
+  apply relabel_in in I1 as [a [Ia Ea]]. apply relabel_in in I2 as [b [Ib Eb]].
+  destruct (Nat.eqb (e_dst a) c && ident_eqb (e_lbl a) old) eqn:Ca; destruct (Nat.eqb (e_dst b) c && ident_eqb (e_lbl b) old) eqn:Cb; subst; cbn in *.
   - reflexivity.
   - exfalso. apply (Fr b Ib). congruence.
   - exfalso. apply (Fr a Ia). congruence.
@@ -54,72 +55,72 @@ Proof.
 Qed.
 
 Section Iso.
-  Variables (g : graph) (p c : node) (new : ident).
+  Variables (g : graph) (c : node) (old new : ident).
   Hypothesis Fun : functional g.
   Hypothesis Fresh : fresh g new.
-  Let g' := rename g p c new.
+  Hypothesis OldName : is_super old = false.
+  Let g' := relabel g c old new.
 
   Lemma new_not_super : is_super new = false.
   Proof. exact (proj2 Fresh). Qed.
 
-  (* a step of the resolving walk is repeated by the renamed identifier in the renamed table *)
-  Lemma step_forward : forall n id t,
-    index_step g n id = Some t ->
-    index_step g' n (if negb (is_super id) && Nat.eqb n p && Nat.eqb t c then new else id) = Some t.
+  Definition seg (t : node) (id : ident) : ident := if Nat.eqb t c && ident_eqb id old then new else id.
+
+  Lemma step_forward : forall n id t, index_step g n id = Some t -> index_step g' n (seg t id) = Some t.
   Proof.
-    intros n id t H. destruct (is_super id) eqn:S.
-    - change (negb true && Nat.eqb n p && Nat.eqb t c) with false. cbv iota.
-      unfold index_step in *. rewrite S in *. unfold g'. rewrite parent_rename. assumption.
-    - change (negb false && Nat.eqb n p && Nat.eqb t c) with (Nat.eqb n p && Nat.eqb t c).
-      unfold index_step in H. rewrite S in H. apply child_some in H.
-      destruct (Nat.eqb n p && Nat.eqb t c) eqn:E.
-      + apply andb_true_iff in E as [E1 E2]. apply Nat.eqb_eq in E1, E2. subst n t.
-        unfold index_step. rewrite new_not_super. apply child_of_edge; [apply rename_functional; assumption|].
-        apply rename_in. exists (mkEdge p id c). split; [assumption|]. cbn [e_src e_dst]. rewrite !Nat.eqb_refl. reflexivity.
-      + unfold index_step. rewrite S. apply child_of_edge; [apply rename_functional; assumption|].
-        apply rename_in. exists (mkEdge n id t). split; [assumption|]. cbn [e_src e_dst]. rewrite E. reflexivity.
+    intros n id t H. unfold seg. destruct (is_super id) eqn:S.
+    - assert (E : ident_eqb id old = false).
+      { apply ident_eqb_neq. intro. subst. congruence. }
+      rewrite E, andb_false_r. unfold index_step in *. rewrite S in *. unfold g'. rewrite parent_relabel. assumption.
+    - unfold index_step in H. rewrite S in H. apply child_some in H.
+      destruct (Nat.eqb t c && ident_eqb id old) eqn:E.
+      + apply andb_true_iff in E as [E1 E2]. apply Nat.eqb_eq in E1. apply ident_eqb_eq in E2. subst t id.
+        unfold index_step. rewrite new_not_super. apply child_of_edge; [apply relabel_functional; assumption|].
+        apply relabel_in. exists (mkEdge n old c). split; [assumption|]. cbn [e_src e_dst e_lbl].
+        rewrite Nat.eqb_refl, ident_eqb_refl. reflexivity.
+      + unfold index_step. rewrite S. apply child_of_edge; [apply relabel_functional; assumption|].
+        apply relabel_in. exists (mkEdge n id t). split; [assumption|]. cbn [e_src e_dst e_lbl]. rewrite E. reflexivity.
   Qed.
 
-  (* ... and a step of ANY walk in the renamed table along a renamed identifier is a step of the old table along
-     the old identifier, whenever the old identifier really labels an edge p -> c where it was replaced *)
   Lemma step_backward : forall a id id' b,
-    (id' = id /\ id <> new) \/ (id' = new /\ is_super id = false /\ In (mkEdge p id c) g) ->
+    (id' = id /\ id <> new) \/ (id' = new /\ id = old) ->
     index_step g' a id' = Some b -> index_step g a id = Some b.
   Proof.
-    intros a id id' b Hid H. unfold index_step in *. destruct Hid as [[-> NE]|[-> [S I]]].
+    intros a id id' b Hid H. unfold index_step in *. destruct Hid as [[-> NE]|[-> ->]].
     - destruct (is_super id) eqn:S.
-      + unfold g' in H. rewrite parent_rename in H. assumption.
-      + apply child_some in H. apply rename_in in H as [e [Ie Ee]].
-        destruct (Nat.eqb (e_src e) p && Nat.eqb (e_dst e) c); [inversion Ee; congruence|].
+      + unfold g' in H. rewrite parent_relabel in H. assumption.
+      + apply child_some in H. apply relabel_in in H as [e [Ie Ee]].
+        destruct (Nat.eqb (e_dst e) c && ident_eqb (e_lbl e) old); [inversion Ee; congruence|].
         subst e. apply child_of_edge; assumption.
-    - rewrite new_not_super in H. rewrite S. apply child_some in H. apply rename_in in H as [e [Ie Ee]].
-      destruct (Nat.eqb (e_src e) p && Nat.eqb (e_dst e) c) eqn:E.
-      + inversion Ee; subst. apply child_of_edge; assumption.
+    - rewrite new_not_super in H. rewrite OldName. apply child_some in H. apply relabel_in in H as [e [Ie Ee]].
+      destruct (Nat.eqb (e_dst e) c && ident_eqb (e_lbl e) old) eqn:E.
+      + inversion Ee; subst. apply andb_true_iff in E as [E1 E2]. apply Nat.eqb_eq in E1. apply ident_eqb_eq in E2.
+        apply child_of_edge; [assumption|]. destruct e; cbn in *; subst. assumption.
       + exfalso. apply (proj1 Fresh e Ie). rewrite <- Ee. reflexivity.
   Qed.
 
-  Lemma walk_forward : forall pth n l, walk g n pth = Some l -> walk g' n (ren_path p c new n l pth) = Some l.
+  Lemma walk_forward : forall pth n l, walk g n pth = Some l -> walk g' n (ren_path c old new l pth) = Some l.
   Proof.
     induction pth as [|id pth IH]; intros n l H; cbn in H.
     - inversion H. reflexivity.
     - destruct (index_step g n id) as [t|] eqn:S; [|discriminate].
       destruct (walk g t pth) as [l'|] eqn:W; [|discriminate]. cbn in H. inversion H; subst. cbn.
-      rewrite (step_forward _ _ _ S). rewrite (IH _ _ W). reflexivity.
+      fold (seg t id). rewrite (step_forward _ _ _ S). rewrite (IH _ _ W). reflexivity.
   Qed.
 
   (* the relation between a path and its renaming along the resolving walk (n, l) *)
   Inductive renamed : node -> list node -> path -> path -> Prop :=
   | rn_nil : forall n, renamed n [] [] []
   | rn_cons : forall n t l id pth pth',
-      index_step g n id = Some t -> renamed t l pth pth' ->
-      renamed n (t :: l) (id :: pth) ((if negb (is_super id) && Nat.eqb n p && Nat.eqb t c then new else id) :: pth').
+      index_step g n id = Some t -> renamed t l pth pth' -> renamed n (t :: l) (id :: pth) (seg t id :: pth').
 
-  Lemma renamed_ren_path : forall pth n l, walk g n pth = Some l -> renamed n l pth (ren_path p c new n l pth).
+  Lemma renamed_ren_path : forall pth n l, walk g n pth = Some l -> renamed n l pth (ren_path c old new l pth).
   Proof.
     induction pth as [|id pth IH]; intros n l H; cbn in H.
     - inversion H. constructor.
     - destruct (index_step g n id) as [t|] eqn:S; [|discriminate].
-      destruct (walk g t pth) as [l'|] eqn:W; [|discriminate]. cbn in H. inversion H; subst. cbn. constructor; auto.
+      destruct (walk g t pth) as [l'|] eqn:W; [|discriminate]. cbn in H. inversion H; subst. cbn.
+      fold (seg t id). constructor; auto.
   Qed.
 
   Lemma walk_backward : forall n l pth pth', renamed n l pth pth' ->
@@ -127,14 +128,12 @@ Section Iso.
   Proof.
     induction 1 as [|n t l id pth pth' S R IH]; intros m l2 W; cbn in W |- *.
     - assumption.
-    - destruct (index_step g' m _) as [b|] eqn:Sb; [|discriminate].
+    - destruct (index_step g' m (seg t id)) as [b|] eqn:Sb; [|discriminate].
       destruct (walk g' b pth') as [l3|] eqn:W3; [|discriminate]. cbn in W. inversion W; subst.
       assert (Sg : index_step g m id = Some b).
-      { eapply step_backward; [|exact Sb].
-        destruct (negb (is_super id) && Nat.eqb n p && Nat.eqb t c) eqn:E.
-        - right. apply andb_true_iff in E as [E E3]. apply andb_true_iff in E as [E1 E2].
-          apply negb_true_iff in E1. apply Nat.eqb_eq in E2, E3. subst. split; [reflexivity|]. split; [assumption|].
-          unfold index_step in S. rewrite E1 in S. apply child_some in S. assumption.
+      { eapply step_backward; [|exact Sb]. unfold seg.
+        destruct (Nat.eqb t c && ident_eqb id old) eqn:E.
+        - right. apply andb_true_iff in E as [_ E2]. apply ident_eqb_eq in E2. auto.
         - left. split; [reflexivity|]. intro Hn. subst id.
           unfold index_step in S. rewrite new_not_super in S. apply child_some in S.
           apply (proj1 Fresh _ S). reflexivity. }
@@ -144,250 +143,174 @@ Section Iso.
   Lemma renamed_contains_super : forall n l pth pth', renamed n l pth pth' -> contains_super pth' = contains_super pth.
   Proof.
     unfold contains_super. induction 1 as [|n t l id pth pth' S R IH]; [reflexivity|]. cbn [existsb]. rewrite IH. f_equal.
-    destruct (is_super id) eqn:Si.
-    - change (negb true && Nat.eqb n p && Nat.eqb t c) with false. cbv iota. assumption.
-    - change (negb false && Nat.eqb n p && Nat.eqb t c) with (Nat.eqb n p && Nat.eqb t c).
-      destruct (Nat.eqb n p && Nat.eqb t c); [apply new_not_super|assumption].
+    unfold seg. destruct (Nat.eqb t c && ident_eqb id old) eqn:E; [|reflexivity].
+    apply andb_true_iff in E as [_ E2]. apply ident_eqb_eq in E2. subst. rewrite new_not_super, OldName. reflexivity.
   Qed.
 
-  Lemma renamed_nonempty : forall n l pth pth', renamed n l pth pth' -> pth <> [] -> pth' <> [].
-  Proof. induction 1; intros; congruence. Qed.
-
-  (* Every lookup that resolved, resolves through the same nodes after the rename when each identifier that crossed
-     an edge p -> c is replaced by the new name: same bubbling steps, same Symbol steps. *)
-  Theorem rename_iso : forall fuel scope pth steps,
+  (* Every lookup that resolved, resolves through the same nodes in the relabelled table when each identifier that
+     reached c under the old name is replaced by the new name: same bubbling steps, same Symbol steps. *)
+  Theorem relabel_iso : forall fuel scope pth steps,
     pth <> [] ->
     query_traversal_steps fuel g scope pth = Some steps ->
     symbols_of steps <> [] ->
-    query_traversal_steps fuel g' scope
-      (ren_path p c new (resolving_scope scope steps) (symbols_of steps) pth) = Some steps.
+    query_traversal_steps fuel g' scope (ren_path c old new (symbols_of steps) pth) = Some steps.
   Proof.
     induction fuel as [|fuel IH]; intros scope pth steps NE Q Res; [discriminate|].
     cbn in Q. destruct (walk g scope pth) as [l|] eqn:W.
     - destruct pth as [|id pth]; [congruence|]. inversion Q; subst steps; clear Q.
       rewrite symbols_of_map in *. destruct l as [|t l]; [cbn in Res; congruence|].
-      change (resolving_scope scope (map Symbol (t :: l))) with scope.
       pose proof (walk_forward _ _ _ W) as WF. cbn [query_traversal_steps]. rewrite WF.
-      destruct (ren_path p c new scope (t :: l) (id :: pth)) eqn:RP; [cbn in RP; discriminate|]. reflexivity.
+      destruct (ren_path c old new (t :: l) (id :: pth)) eqn:RP; [cbn in RP; discriminate|]. reflexivity.
     - destruct (contains_super pth) eqn:CS; [inversion Q; subst; cbn in Res; congruence|].
       destruct (parent g scope) as [pn|] eqn:P; [|inversion Q; subst; cbn in Res; congruence].
       destruct (query_traversal_steps fuel g pn pth) as [r|] eqn:Qr; [|discriminate].
-      cbn in Q. inversion Q; subst steps; clear Q. cbn [symbols_of resolving_scope] in *.
+      cbn in Q. inversion Q; subst steps; clear Q. cbn [symbols_of] in *.
       pose proof (qts_shape _ _ _ _ _ NE Qr) as Sh.
       pose proof (shape_walk _ _ _ _ Sh Res) as Wr.
       pose proof (renamed_ren_path _ _ _ Wr) as Rn.
       pose proof (IH pn pth r NE Qr Res) as IHr.
-      remember (ren_path p c new (resolving_scope pn r) (symbols_of r) pth) as pth' eqn:Ep.
+      remember (ren_path c old new (symbols_of r) pth) as pth' eqn:Ep.
       cbn [query_traversal_steps].
       destruct (walk g' scope pth') as [l2|] eqn:W2.
       + exfalso. rewrite (walk_backward _ _ _ _ Rn _ _ W2) in W. discriminate.
       + rewrite (renamed_contains_super _ _ _ _ Rn), CS.
-        replace (parent g' scope) with (Some pn) by (unfold g'; rewrite parent_rename; symmetry; exact P).
+        replace (parent g' scope) with (Some pn) by (unfold g'; rewrite parent_relabel; symmetry; exact P).
         rewrite IHr. reflexivity.
   Qed.
 End Iso.
 
 (* ---------- renaming back ---------- *)
-Lemma rename_back : forall g p c new old,
-  uniform g p c old -> rename (rename g p c new) p c old = g.
+Lemma relabel_back : forall g c old new, fresh g new -> relabel (relabel g c old new) c new old = g.
 Proof.
-  intros g p c new old U. unfold rename. rewrite map_map. rewrite <- (map_id g) at 2. apply map_ext_in.
-  intros e I. destruct (Nat.eqb (e_src e) p && Nat.eqb (e_dst e) c) eqn:E; cbn.
-  - rewrite !Nat.eqb_refl. cbn. apply andb_true_iff in E as [E1 E2]. apply Nat.eqb_eq in E1, E2.
-    destruct e as [s l d]; cbn in *. subst. f_equal. symmetry. apply (U (mkEdge p l c)); auto.
-  - rewrite E. reflexivity.
+  intros g c old new [Fr _]. unfold relabel. rewrite map_map. rewrite <- (map_id g) at 2. apply map_ext_in.
+  intros e I. destruct (Nat.eqb (e_dst e) c && ident_eqb (e_lbl e) old) eqn:E; cbn.
+  - rewrite Nat.eqb_refl, ident_eqb_refl. cbn. apply andb_true_iff in E as [E1 E2]. apply Nat.eqb_eq in E1. apply ident_eqb_eq in E2.
+    destruct e as [s l d]; cbn in *. subst. reflexivity.
+  - assert (N : ident_eqb (e_lbl e) new = false) by (apply ident_eqb_neq; apply Fr; assumption).
+    rewrite N, andb_false_r. reflexivity.
 Qed.
 
-Lemma ren_path_back : forall g p c new old pth n l,
-  is_super new = false ->
-  functional g -> uniform g p c old -> walk g n pth = Some l ->
-  ren_path p c old n l (ren_path p c new n l pth) = pth.
+Lemma ren_path_back : forall g c old new pth n l,
+  fresh g new -> walk g n pth = Some l ->
+  ren_path c new old l (ren_path c old new l pth) = pth.
 Proof.
-  intros g p c new old pth n l Sn. revert n l. induction pth as [|id pth IH]; intros n l F U W; cbn in W.
+  intros g c old new pth n l Fr. revert n l. induction pth as [|id pth IH]; intros n l W; cbn in W.
   - inversion W. reflexivity.
   - destruct (index_step g n id) as [t|] eqn:S; [|discriminate].
     destruct (walk g t pth) as [l'|] eqn:W'; [|discriminate]. cbn in W. inversion W; subst. cbn.
-    rewrite (IH _ _ F U W'). f_equal.
-    destruct (is_super id) eqn:Si.
-    + change (negb true && Nat.eqb n p && Nat.eqb t c) with false. cbv iota. rewrite Si. reflexivity.
-    + change (negb false && Nat.eqb n p && Nat.eqb t c) with (Nat.eqb n p && Nat.eqb t c).
-      destruct (Nat.eqb n p && Nat.eqb t c) eqn:E.
-      * (* replaced by new, and back by old; the old identifier was `old` *)
-        apply andb_true_iff in E as [E1 E2]. apply Nat.eqb_eq in E1, E2. subst.
-        rewrite !Nat.eqb_refl. unfold index_step in S. rewrite Si in S. apply child_some in S.
-        pose proof (U _ S eq_refl eq_refl) as Hl. cbn in Hl. subst id.
-        rewrite Sn. reflexivity.
-      * rewrite Si. change (negb false && Nat.eqb n p && Nat.eqb t c) with (Nat.eqb n p && Nat.eqb t c).
-        rewrite E. reflexivity.
+    rewrite (IH _ _ W'). f_equal.
+    destruct (Nat.eqb t c && ident_eqb id old) eqn:E.
+    + apply andb_true_iff in E as [E1 E2]. rewrite E1, ident_eqb_refl. cbn. apply ident_eqb_eq in E2. congruence.
+    + assert (N : ident_eqb id new = false).
+      { apply ident_eqb_neq. intro. subst id. unfold index_step in S. rewrite (proj2 Fr) in S.
+        apply child_some in S. apply (proj1 Fr _ S). reflexivity. }
+      rewrite N, andb_false_r. reflexivity.
+Qed.
+
+Lemma roundtrip : forall g c old new,
+  fresh g new ->
+  relabel (relabel g c old new) c new old = g /\
+  forall pth n l, walk g n pth = Some l -> ren_path c new old l (ren_path c old new l pth) = pth.
+Proof.
+  intros g c old new Fr. split; [apply relabel_back; assumption|].
+  intros pth n l W. eapply ren_path_back; eauto.
 Qed.
 
 (* ---------- the handler ---------- *)
-Lemma rename_symbol_spans : forall fuel g slice nx d new g' edits,
-  rename_symbol fuel g slice nx d new = RenEdits g' edits ->
-  map ed_span edits = map dl_span (filter (fun dl => negb (is_super_slice slice dl)) (definition_and_usages d)).
+Lemma in_edits_of : forall names old new dl e,
+  In e (edits_of names old new dl) <->
+  exists off id, In (off, id) (names (dl_span dl)) /\ id = old /\
+                 e = mkEdit (subspan (dl_span dl) off (off + List.length id)) new.
 Proof.
-  intros fuel g slice nx d new g' edits H. unfold rename_symbol in H.
-  destruct (location d); [|discriminate]. destruct (negb (def_site_is_identifier slice d0)); [discriminate|].
-  destruct (usage_steps fuel g slice (usages d)); [|discriminate].
-  inversion H; subst. rewrite map_map. reflexivity.
+  intros. unfold edits_of. rewrite in_map_iff. split.
+  - intros [[off id] [E I]]. apply filter_In in I as [I P]. cbn in P. apply ident_eqb_eq in P. exists off, id. cbn in E. auto.
+  - intros [off [id [I [-> E]]]]. exists (off, old). cbn. split; [auto|]. apply filter_In. split; [assumption|]. cbn. apply ident_eqb_refl.
 Qed.
 
-(* the witness of F-C15a: .import x as y from "b.asm" / lda y ; rename y -> zz *)
+(* the edits: exactly the places where the symbol found at the position is written with the name under the cursor *)
+Lemma rename_symbol_edits : forall names d f l c new old edits,
+  rename_symbol names d f l c new = RenEdits old edits ->
+  name_under_cursor names d f l c = Some old /\ is_super old = false /\ ident_ok old = true /\
+  forall e, In e edits <->
+    exists dl off id, In dl (definition_and_usages d) /\ In (off, id) (names (dl_span dl)) /\ id = old /\
+                      e = mkEdit (subspan (dl_span dl) off (off + List.length id)) new.
+Proof.
+  intros names d f l c new old edits H. unfold rename_symbol in H.
+  destruct (location d); [|discriminate].
+  destruct (name_under_cursor names d f l c) as [o|] eqn:N; [|discriminate].
+  destruct (negb (is_super o) && ident_ok o) eqn:K; [|discriminate]. inversion H; subst o edits; clear H.
+  apply andb_true_iff in K as [K1 K2]. apply negb_true_iff in K1. repeat split; auto.
+  - intro I. apply in_flat_map in I as [dl [Id Ie]]. apply in_edits_of in Ie as [off [id [I1 [I2 I3]]]]. exists dl, off, id. auto.
+  - intros [dl [off [id [Id [I1 [I2 I3]]]]]]. apply in_flat_map. exists dl. split; [assumption|]. apply in_edits_of. exists off, id. auto.
+Qed.
+
+Lemma edit_text_is_new_name : forall names d f l c new old edits,
+  rename_symbol names d f l c new = RenEdits old edits -> forall e, In e edits -> ed_text e = new.
+Proof.
+  intros names d f l c new old edits H e I. apply rename_symbol_edits in H as [_ [_ [_ S]]].
+  apply S in I as [dl [off [id [_ [_ [_ ->]]]]]]. reflexivity.
+Qed.
+
+(* the name under the cursor is one of the names of a place of the symbol that contains the position *)
+Lemma find_map_some : forall (A B : Type) (f : A -> option B) l y, find_map f l = Some y -> exists x, In x l /\ f x = Some y.
+Proof.
+  induction l as [|x l IH]; intros y H; cbn in H; [discriminate|].
+  destruct (f x) eqn:E; [inversion H; subst; exists x; cbn; auto|]. destruct (IH _ H) as [x' [I F]]. exists x'. cbn. auto.
+Qed.
+
+Lemma name_under_cursor_spec : forall names d f l c old,
+  name_under_cursor names d f l c = Some old ->
+  exists dl off, In dl (definition_and_usages d) /\ span_contains (dl_span dl) f l c = true /\
+                 In (off, old) (names (dl_span dl)) /\
+                 s_c0 (dl_span dl) + off <= c <= s_c0 (dl_span dl) + off + List.length old.
+Proof.
+  intros names d f l c old H. unfold name_under_cursor in H. apply find_map_some in H as [dl [I N]].
+  apply filter_In in I as [I C]. unfold name_at in N.
+  match type of N with option_map snd ?X = _ => destruct X as [[off id]|] eqn:F end; [|discriminate]. cbn in N. inversion N; subst id.
+  apply find_some in F as [In_ P]. cbn in P. apply andb_true_iff in P as [P1 P2]. apply Nat.leb_le in P1, P2.
+  exists dl, off. auto.
+Qed.
+
+(* ---------- the repaired witness: .import x as y from "b.asm" / lda y ---------- *)
 Definition w_x : ident := [120]%N.
 Definition w_y : ident := [121]%N.
 Definition w_zz : ident := [122; 122]%N.
-Definition w_imp : ident := [36; 105]%N.
-Definition w_x_as_y : ident := [120; 32; 97; 115; 32; 121]%N.
-Definition w_graph : graph := [mkEdge 0 w_y 2; mkEdge 1 w_x 2; mkEdge 0 w_imp 1].
 Definition w_def_site := mkSpan 1 0 0 0 1.
 Definition w_arg := mkSpan 0 0 8 0 14.
 Definition w_use := mkSpan 0 1 4 1 5.
 Definition w_analysis : Analysis :=
   [(DtSymbol 2, mkDef (Some (mkLoc 1 w_def_site)) [mkLoc 0 w_use; mkLoc 0 w_arg])].
-Definition w_slice (s : Span) : path :=
-  if span_eqb s w_use then [w_y] else if span_eqb s w_arg then [w_x_as_y] else if span_eqb s w_def_site then [w_x] else [].
+Definition w_names (s : Span) : list (nat * ident) :=
+  if span_eqb s w_use then [(0, w_y)] else if span_eqb s w_arg then [(0, w_x); (5, w_y)]
+  else if span_eqb s w_def_site then [(0, w_x)] else [].
 
-Lemma import_alias_refuted :
-  exists g' edits, rename_handler 5 w_graph w_analysis w_slice 0 1 4 w_zz = RenEdits g' edits /\
-    In (mkEdit w_arg []) edits /\ In (mkEdit w_def_site [w_zz]) edits /\ In (mkEdit w_use [w_zz]) edits.
-Proof. eexists. eexists. split; [vm_compute; reflexivity|]. cbn. auto. Qed.
+(* renaming the alias (cursor on `lda y`) edits the alias half of the argument and the use, not x;
+   renaming x (cursor on its definition) edits the definition and the other half *)
+Lemma import_alias_repaired :
+  rename_handler w_analysis w_names 0 1 4 w_zz =
+    RenEdits w_y [mkEdit w_use w_zz; mkEdit (mkSpan 0 0 13 0 14) w_zz] /\
+  rename_handler w_analysis w_names 1 0 0 w_zz =
+    RenEdits w_x [mkEdit w_def_site w_zz; mkEdit (mkSpan 0 0 8 0 9) w_zz].
+Proof. vm_compute. split; reflexivity. Qed.
 
-(* ---------- the guarded statement: outside the class, every edit writes the new name ---------- *)
-Definition all_new (g : graph) (s t : node) (new : ident) : Prop :=
-  forall e, In e g -> e_src e = s -> e_dst e = t -> e_lbl e = new.
+(* ---------- the greedy analysis seen from rename (known finding, class Known_greedy_untaken_definition) ---------- *)
+(* foo: nop / { .if 0 { foo: nop } / lda foo } *)
+Definition gr_outer := mkSpan 0 0 0 0 3.
+Definition gr_dead := mkSpan 0 3 0 3 3.
+Definition gr_occ := mkSpan 0 5 4 5 7.
+Definition gr_zz : ident := [122; 122]%N.
+Definition gr_names (_ : Span) : list (nat * ident) := [(0, gw_foo)].
+Definition gr_analysed_events : list Event :=
+  [EvDefine 1 (mkLoc 0 gr_outer); EvDefine 3 (mkLoc 2 gr_dead); EvUse gw_table 2 [gw_foo] gr_occ].
+Definition gr_build_events : list Event :=
+  [EvDefine 1 (mkLoc 0 gr_outer); EvUse (without gw_extra gw_table) 2 [gw_foo] gr_occ].
 
-Lemma rename_all_new : forall g s t new, all_new (rename g s t new) s t new.
-Proof.
-  intros g s t new e I Hs Ht. apply rename_in in I as [a [Ia Ea]].
-  destruct (Nat.eqb (e_src a) s && Nat.eqb (e_dst a) t) eqn:E; subst e; [reflexivity|].
-  cbn in *. subst. rewrite !Nat.eqb_refl in E. discriminate.
-Qed.
-
-Lemma rename_keeps_all_new : forall g s t s' t' new, all_new g s t new -> all_new (rename g s' t' new) s t new.
-Proof.
-  intros g s t s' t' new A e I Hs Ht. apply rename_in in I as [a [Ia Ea]].
-  destruct (Nat.eqb (e_src a) s' && Nat.eqb (e_dst a) t') eqn:E; subst e; [reflexivity|]. apply A; assumption.
-Qed.
-
-Lemma rename_keeps_endpoints : forall g s t new a b,
-  (exists e, In e g /\ e_src e = a /\ e_dst e = b) -> exists e, In e (rename g s t new) /\ e_src e = a /\ e_dst e = b.
-Proof.
-  intros g s t new a b [e [I [Hs Hd]]].
-  exists (if Nat.eqb (e_src e) s && Nat.eqb (e_dst e) t then mkEdge s new t else e). split.
-  - apply rename_in. exists e. auto.
-  - destruct (Nat.eqb (e_src e) s && Nat.eqb (e_dst e) t) eqn:E; [|auto].
-    apply andb_true_iff in E as [E1 E2]. apply Nat.eqb_eq in E1, E2. cbn. split; congruence.
-Qed.
-
-Lemma rename_usages_keeps : forall l g s t new,
-  all_new g s t new -> all_new (rename_usages g l new) s t new.
-Proof.
-  induction l as [|[[dl steps] pth] l IH]; intros g s t new A; cbn; [assumption|].
-  apply IH. destruct (last_symbol steps); [apply rename_keeps_all_new|]; assumption.
-Qed.
-
-Lemma rename_usages_endpoints : forall l g new a b,
-  (exists e, In e g /\ e_src e = a /\ e_dst e = b) -> exists e, In e (rename_usages g l new) /\ e_src e = a /\ e_dst e = b.
-Proof.
-  induction l as [|[[dl steps] pth] l IH]; intros g new a b H; cbn; [assumption|].
-  apply IH. destruct (last_symbol steps); [apply rename_keeps_endpoints|]; assumption.
-Qed.
-
-Lemma rename_usages_establishes : forall l g new dl steps pth t,
-  In (dl, steps, pth) l -> last_symbol steps = Some t ->
-  all_new (rename_usages g l new) (parent_scope dl) t new.
-Proof.
-  induction l as [|[[dl0 steps0] pth0] l IH]; intros g new dl steps pth t I L; [destruct I|].
-  cbn. destruct I as [I|I].
-  - inversion I; subst. rewrite L. apply rename_usages_keeps. apply rename_all_new.
-  - eapply IH; eauto.
-Qed.
-
-Lemma usage_steps_spec : forall fuel g slice us l,
-  usage_steps fuel g slice us = Some l ->
-  forall e, In e l <-> exists dl, In dl us /\
-     exists steps, query_traversal_steps fuel g (parent_scope dl) (slice (dl_span dl)) = Some steps /\
-                   e = (dl, steps, slice (dl_span dl)).
-Proof.
-  induction us as [|dl us IH]; intros l H e; cbn in H.
-  - inversion H. split; [intros []|intros [dl [[] _]]].
-  - destruct (query_traversal_steps fuel g (parent_scope dl) (slice (dl_span dl))) as [steps|] eqn:Q; [|discriminate].
-    destruct (usage_steps fuel g slice us) as [r|] eqn:U; [|discriminate]. inversion H; subst. cbn. rewrite (IH r eq_refl). split.
-    + intros [<-|[dl' [I [st [Q' E]]]]].
-      * exists dl. split; [auto|]. exists steps. auto.
-      * exists dl'. split; [auto|]. exists st. auto.
-    + intros [dl' [[<-|I] [st [Q' E]]]].
-      * left. rewrite Q in Q'. inversion Q'. subst. reflexivity.
-      * right. exists dl'. split; [assumption|]. exists st. auto.
-Qed.
-
-Lemma qstp_shape : forall g0 g p n steps,
-  traversal_shape g0 p n steps ->
-  query_steps_to_path g n steps false = query_steps_to_path g (resolving_scope n steps) (map Symbol (symbols_of steps)) false.
-Proof.
-  intros g0 g p n steps Sh. induction Sh.
-  - rewrite symbols_of_map. destruct l; reflexivity.
-  - reflexivity.
-  - cbn [query_steps_to_path resolving_scope symbols_of]. rewrite IHSh.
-    destruct (query_steps_to_path g (resolving_scope parent_nx rest) (map Symbol (symbols_of rest)) false); reflexivity.
-Qed.
-
-Theorem edit_text_guarded : forall fuel g slice nx d new g' edits,
-  rename_symbol fuel g slice nx d new = RenEdits g' edits ->
-  Known_import_alias fuel g slice nx d = false ->
-  forall e, In e edits -> ed_text e = [new].
-Proof.
-  intros fuel g slice nx d new g' edits H K e Ie. unfold rename_symbol in H. unfold Known_import_alias in K.
-  destruct (location d) as [loc|] eqn:Ld; [|discriminate].
-  destruct (negb (def_site_is_identifier slice loc)); [discriminate|].
-  destruct (usage_steps fuel g slice (usages d)) as [steps|] eqn:US; [|discriminate].
-  inversion H; subst g' edits; clear H. apply negb_false_iff in K. rewrite forallb_forall in K.
-  apply in_map_iff in Ie as [dl [<- Idl]]. cbn. apply filter_In in Idl as [Idl NS].
-  destruct (find (fun e0 => loc_eqb (fst (fst e0)) dl) steps) as [[[dl' st] pth]|] eqn:F; [|reflexivity].
-  apply find_some in F as [If Heq]. cbn in Heq. apply loc_eqb_eq in Heq. subst dl'.
-  apply (usage_steps_spec _ _ _ _ _ US) in If as Spec. destruct Spec as [dl2 [Iu [st2 [Q E]]]]. inversion E; subst dl2 st2 pth. clear E.
-  specialize (K dl Iu). unfold usage_plain in K. unfold is_super_slice in NS.
-  destruct (slice (dl_span dl)) as [|id [|]] eqn:Sl; try discriminate.
-  apply negb_true_iff in NS. rewrite NS in K. cbn [orb] in K. rewrite Q in K.
-  destruct (last_symbol st) as [t|] eqn:L; [|discriminate].
-  apply andb_true_iff in K as [Kt Kr]. apply Nat.eqb_eq in Kt. subst t.
-  cbn [new_path]. replace (contains_super [id]) with false by (cbn; rewrite NS; reflexivity).
-  pose proof (qts_shape _ _ _ _ _ (ltac:(discriminate) : [id] <> []) Q) as Sh.
-  rewrite (qstp_shape _ _ _ _ _ Sh).
-  destruct (shape_last_symbol _ _ _ _ _ Sh L) as [NE Hl].
-  pose proof (shape_walk _ _ _ _ Sh NE) as W.
-  set (rs := resolving_scope (parent_scope dl) st) in *.
-  cbn in W. destruct (index_step g rs id) as [t|] eqn:St; [|discriminate]. cbn in W.
-  assert (Hsym : symbols_of st = [t]) by (inversion W; reflexivity).
-  rewrite Hsym in Hl. cbn in Hl. subst t.
-  rewrite Hsym. cbn [map query_steps_to_path].
-  unfold index_step in St. rewrite NS in St. apply child_some in St.
-  set (g2 := rename_usages (rename g (parent_scope loc) nx new) steps new).
-  assert (Ex : exists e0, In e0 g2 /\ e_src e0 = rs /\ e_dst e0 = nx).
-  { apply rename_usages_endpoints. apply rename_keeps_endpoints. exists (mkEdge rs id nx). auto. }
-  assert (AN : all_new g2 rs nx new).
-  { apply orb_true_iff in Kr as [Kr|Kr]; apply Nat.eqb_eq in Kr.
-    - rewrite Kr. apply rename_usages_keeps. apply rename_all_new.
-    - rewrite Kr. eapply rename_usages_establishes; eauto. }
-  destruct (find (fun e0 => Nat.eqb (e_src e0) rs && Nat.eqb (e_dst e0) nx) g2) as [e0|] eqn:Fe.
-  - apply find_some in Fe as [I0 P0]. apply andb_true_iff in P0 as [P1 P2]. apply Nat.eqb_eq in P1, P2.
-    cbn. rewrite (AN e0 I0 P1 P2). reflexivity.
-  - reflexivity.
-Qed.
-
-(* the witness is in the class *)
-Lemma witness_in_class :
-  Known_import_alias 5 w_graph w_slice 2 (mkDef (Some (mkLoc 1 w_def_site)) [mkLoc 0 w_use; mkLoc 0 w_arg]) = true.
-Proof. vm_compute. reflexivity. Qed.
-
-Lemma roundtrip : forall g p c new old,
-  is_super new = false -> functional g -> uniform g p c old ->
-  rename (rename g p c new) p c old = g /\
-  forall pth n l, walk g n pth = Some l -> ren_path p c old n l (ren_path p c new n l pth) = pth.
-Proof.
-  intros g p c new old Sn F U. split; [apply rename_back; assumption|].
-  intros pth n l W. eapply ren_path_back; eauto.
-Qed.
+Lemma greedy_rename_refuted :
+  exists a a_b,
+    run_pass 5 [] gr_analysed_events = Some a /\ run_pass 5 [] gr_build_events = Some a_b /\
+    rename_handler a gr_names 0 0 0 gr_zz = RenEdits gw_foo [mkEdit gr_outer gr_zz] /\
+    rename_handler a_b gr_names 0 0 0 gr_zz = RenEdits gw_foo [mkEdit gr_outer gr_zz; mkEdit gr_occ gr_zz].
+Proof. do 2 eexists. repeat split; vm_compute; reflexivity. Qed.
 
 (* ---------- `functional` is an invariant of the table's constructors ---------- *)
 Lemma functional_nil : functional [].
@@ -438,23 +361,3 @@ Lemma functional_invariant :
 Proof.
   split; [exact functional_nil|]. split; [exact insert_functional|]. split; [exact export_functional|exact remove_functional].
 Qed.
-
-(* ---------- the greedy analysis seen from rename (known finding, class Known_greedy_untaken_definition) ---------- *)
-(* foo: nop / { .if 0 { foo: nop } / lda foo } *)
-Definition gr_outer := mkSpan 0 0 0 0 3.
-Definition gr_dead := mkSpan 0 3 0 3 3.
-Definition gr_occ := mkSpan 0 5 4 5 7.
-Definition gr_zz : ident := [122; 122]%N.
-Definition gr_slice (_ : Span) : path := [gw_foo].
-Definition gr_analysed_events : list Event :=
-  [EvDefine 1 (mkLoc 0 gr_outer); EvDefine 3 (mkLoc 2 gr_dead); EvUse gw_table 2 [gw_foo] gr_occ].
-Definition gr_build_events : list Event :=
-  [EvDefine 1 (mkLoc 0 gr_outer); EvUse (without gw_extra gw_table) 2 [gw_foo] gr_occ].
-
-Lemma greedy_rename_refuted :
-  exists a a_b g1 g2,
-    run_pass 5 [] gr_analysed_events = Some a /\ run_pass 5 [] gr_build_events = Some a_b /\
-    rename_handler 5 gw_table a gr_slice 0 0 0 gr_zz = RenEdits g1 [mkEdit gr_outer [gr_zz]] /\
-    rename_handler 5 (without gw_extra gw_table) a_b gr_slice 0 0 0 gr_zz =
-      RenEdits g2 [mkEdit gr_outer [gr_zz]; mkEdit gr_occ [gr_zz]].
-Proof. do 4 eexists. repeat split; vm_compute; reflexivity. Qed.
